@@ -3,7 +3,7 @@
    Controlled seed changes (6001, 6002; flags f_0..f_8 = deterministic, then (mask_eq, body_eq) for another plaintext /
    secret / error seed / mask seed):
        f_0 = 1 (same inputs twice: identical bytes); mask_eq = 1 under another plaintext, secret, error seed;
-       under another error seed the body changes whenever the replayed errors differ; under another mask seed the mask
+       under another error seed the body changes whenever the replayed errors differ on the torus (modulo 2^((limb+1) b)); under another mask seed the mask
        changes whenever the digits of the two streams differ.
    Standard gadget objects (6004, 6005): the same mask flags, and for EVERY cell `error_is_full`:
        body_k + sum_i (s_i * a_i)_k  ==  plaintext image + e_k * 2^-(limb+1)b   exactly on the torus,
@@ -24,12 +24,12 @@ Open Scope Z_scope.
 
 Definition fl (f : list Z) (i : nat) : Z := nthZ f i.
 
-Definition flip_oracle (b : Z) (vs outs : list (list Z)) : Z :=
+Definition flip_oracle (b nk : Z) (vs outs : list (list Z)) : Z :=
   let f := v outs 0 in
   let e := v vs 6 in let e' := v vs 7 in
   if negb (Nat.eqb (length f) 9) then 0 else
   ob ((fl f 0 =? 1) && (fl f 1 =? 1) && (fl f 3 =? 1) && (fl f 5 =? 1)
-      && (eqlz e e' || (fl f 6 =? 0))
+      && (errs_same_on_torus b nk e e' || (fl f 6 =? 0))
       && (eqlz (digits b (v vs 4)) (digits b (v vs 5)) || (fl f 7 =? 0))).
 
 Definition ceil_sqrt (x : Z) : Z := let r := Z.sqrt x in if r * r =? x then r else r + 1.
@@ -61,7 +61,7 @@ Definition gadget_oracle (ggsw : bool) (ps : list Z) (vs outs : list (list Z)) :
   let slots := flat_map (fun row => map (fun col => (row, col)) (seq 0 cols)) (seq 0 dnum) in
   if negb (Nat.eqb (length (v outs 0)) (dnum * cols * cw) && Nat.eqb (length f) 5) then 0 else
   ob ((fl f 0 =? 1) && (fl f 1 =? 1) && (fl f 2 =? 1)
-      && (eqlz (v vs 3) (v vs 5) || (fl f 3 =? 0))
+      && (errs_same_on_torus b nk (v vs 3) (v vs 5) || (fl f 3 =? 0))
       && (eqlz (digits b (v vs 2)) (digits b (v vs 4)) || (fl f 4 =? 0))
       && andb_all (map (fun q =>
            let slot := fst q in let row := fst (snd q) in let col := snd (snd q) in
@@ -84,7 +84,7 @@ Definition stats_oracle (s : list Z) : Z :=
 
 Definition oracle_c06 (code : Z) (ps : list Z) (vs outs : list (list Z)) : Z :=
   match code with
-  | 6001 | 6002 => flip_oracle (p ps 2) vs outs
+  | 6001 | 6002 => flip_oracle (p ps 2) (p ps 5) vs outs
   | 6004 => gadget_oracle false ps vs outs
   | 6005 => gadget_oracle true ps vs outs
   | 6020 => stats_oracle (v outs 0)
